@@ -21,17 +21,17 @@ func main() {
 	r := vlib.Start("C03", "exploration")
 	r.Rule("a registry of solid constructors (2D/3D primitives, boolean/stack/mux combinators, transforms incl. toolbox squeezes, collider/SDF/metaball/polytope/profile/revolve/cross-section solids, toolbox parts, random expression trees of depth <= 5) is driven with seeded hostile parameters (arbitrary / axis-aligned / nearly axis-aligned orientations, aspect ratios 1e-3..1e3, magnitudes 1e-6..1e6, far offsets, negative anisotropic scales); each solid is queried on a grid+random cloud over its box inflated by 25%, on shells just outside every face (margin, 1e-6, 1e-3, 0.1, 1 x extent), at far points and at the extreme points of the shape found by a pattern search along every axis; a solid is non-trivial if at least one query was contained and >= 20 queries lay outside the box by more than the margin; distinct by hash of the constructor parameters")
 	r.Assume("(b) decides only points outside the box by more than 1e-7*extent_k + 1e-10*(diag+max|coord|) along some axis k")
-	r.Assume("(c) decides only points where the harness-held underlying definition is true at p and at p +- 1e-9*(diag+max|coord|) along every axis (100x that for ConvexPolytope.Solid, whose Mesh() merges vertices closer than 1e-8*magnitude)")
+	r.Assume("(c) decides only points where the harness-held underlying definition is true at p and at p +- 1e-9*(diag+max|coord|) along every axis and every diagonal (100x that for ConvexPolytope.Solid, whose Mesh() merges vertices closer than 1e-8*magnitude)")
 	r.Assume("uniform Scale factors are positive, Rotation axes are unit, Torus inner < outer radius, GrooveSize <= Radius, SDFToSolid insets are below the half-thickness, RevolveSolid profiles are one-sided or mirror-symmetric and not flat, polytopes are bounded with well-conditioned vertex triples (|det| >= 1e-2), Ramp P1/P2 lie inside the operand's box, gear P1 lies on the axis through the origin (all documented or the only documented use)")
 	r.Assume("TransformSolid's definition is the image under the transform's own Apply; TransformCollider is excluded (ray handling belongs to C05/C07)")
 
-	r.Section("prims3", r.N(24000, 300000), vlib.SectionOpts{}, func(c *vlib.Case) {
+	r.Section("prims3", r.N(24000, 720000), vlib.SectionOpts{}, func(c *vlib.Case) {
 		runSubject(c, prims3[c.Index%len(prims3)](c.Rng).subject())
 	})
-	r.Section("prims2", r.N(16000, 200000), vlib.SectionOpts{}, func(c *vlib.Case) {
+	r.Section("prims2", r.N(16000, 480000), vlib.SectionOpts{}, func(c *vlib.Case) {
 		runSubject(c, prims2[c.Index%len(prims2)](c.Rng).subject())
 	})
-	r.Section("trees3", r.N(5000, 60000), vlib.SectionOpts{}, func(c *vlib.Case) {
+	r.Section("trees3", r.N(5000, 150000), vlib.SectionOpts{}, func(c *vlib.Case) {
 		t := randTree3(c.Rng, 1+c.Index%5)
 		depth := 0
 		t.walk(func(n *node3) {
@@ -42,7 +42,7 @@ func main() {
 		})
 		c.Count("trees3.nodes", int64(depth))
 	})
-	r.Section("trees2", r.N(4000, 50000), vlib.SectionOpts{}, func(c *vlib.Case) {
+	r.Section("trees2", r.N(4000, 120000), vlib.SectionOpts{}, func(c *vlib.Case) {
 		t := randTree2(c.Rng, 1+c.Index%5)
 		t.walk(func(n *node2) {
 			if n.def != nil || len(n.kids) > 0 {
@@ -52,16 +52,16 @@ func main() {
 	})
 	w3 := []func(*rand.Rand) *subject{colliderSolidSubject, checkedFuncSubject, smoothJoinSubject, sdfToSolidSubject,
 		profileSubject, crossSectionSubject, revolveSubject, metaballSubject, polytopeSubject, colliderSolidSubject, metaballSubject}
-	r.Section("wrappers3", r.N(17600, 220000), vlib.SectionOpts{}, func(c *vlib.Case) {
+	r.Section("wrappers3", r.N(17600, 528000), vlib.SectionOpts{}, func(c *vlib.Case) {
 		runSubject(c, w3[c.Index%len(w3)](c.Rng))
 	})
 	w2 := []func(*rand.Rand) *subject{colliderSolidSubject2, checkedFuncSubject2, smoothJoinSubject2, sdfToSolidSubject2, metaballSubject2, polytopeSubject2}
-	r.Section("wrappers2", r.N(9600, 120000), vlib.SectionOpts{}, func(c *vlib.Case) {
+	r.Section("wrappers2", r.N(9600, 288000), vlib.SectionOpts{}, func(c *vlib.Case) {
 		runSubject(c, w2[c.Index%len(w2)](c.Rng))
 	})
 	tb := []func(*rand.Rand) *subject{screwSubject, teardrop2Subject, teardrop3Subject, rampSubject, gearProfileSubject, gearSubject,
 		heightMapSubject, lineJoinSubject, radialCurveSubject, rectSetSubject, sliceSubject, lineJoinSubject}
-	r.Section("toolbox", r.N(14400, 180000), vlib.SectionOpts{}, func(c *vlib.Case) {
+	r.Section("toolbox", r.N(14400, 432000), vlib.SectionOpts{}, func(c *vlib.Case) {
 		runSubject(c, tb[c.Index%len(tb)](c.Rng))
 	})
 
@@ -89,5 +89,6 @@ func main() {
 		r.Require("c.decided."+api, 100)
 	}
 	r.Require("solids.total", 5000)
+	r.Require("mux.per_solid_checks", 1000)
 	r.Finish()
 }
